@@ -444,6 +444,9 @@ func (s *valueStack) expand(idx int) {
 		return
 	}
 	idx++
+	if verifEnabled && verifForceRealloc(s, idx) {
+		return
+	}
 	if idx < cap(*s) {
 		*s = (*s)[:idx]
 	} else {
@@ -624,6 +627,9 @@ func (vm *vm) run() {
 			count = 100
 		} else {
 			count--
+		}
+		if verifEnabled {
+			verifTick(vm)
 		}
 		if interrupted = atomic.LoadUint32(&vm.interrupted) != 0; interrupted {
 			break
